@@ -315,6 +315,31 @@ def exportT (t : ParamTable) (childExp : String → PTree → PTree → PTree) (
         | none => acc.put n "default"       -- member never initialised from the tree: keeps `params().n`
     | Via.child => childExp n ((prm.child? n).getD PTree.empty) acc) acc
 
+/-- `get(p, path)` of one struct for the value members only: `p.put(path + name, member)` at the dotted path
+`path ++ [name]` (children are exported by `exportAlong` below) -/
+def exportValuesAt (t : ParamTable) (prm : Imported) (path : List String) (acc : PTree) : PTree :=
+  t.exports.foldl (fun acc (n, via) =>
+    match via with
+    | Via.value => acc.putPath (path ++ [n]) ((prm.value? n).getD "default")
+    | Via.child => acc) acc
+
+/-- Nested configuration along ONE chain of child members: the root struct `t` gets the tree
+`{c₁: {c₂: … {f: v}}}`, every struct on the chain hands `cᵢ` to the child's constructor (`IMPORT_CHILD`) and, in
+`get`, calls the child's exporter with the path extended by `cᵢ.` (`EXPORT_CHILD` = `member.get(p, path + "cᵢ" + ".")`).
+`chain` pairs each child member with the table of the struct it is (template arguments decide that, so the caller
+supplies it).  `none` = some table on the chain is unknown or `cᵢ` is not a child member. -/
+def exportAlong (find : String → Option ParamTable) (dflt : String → String) :
+    ParamTable → List (String × String) → String → String → List String → PTree → Option PTree
+  | t, [], f, v, path, acc => some (t.exportValuesAt (t.importT dflt (PTree.empty.put f v)) path acc)
+  | t, (c, tn) :: rest, f, v, path, acc =>
+    if t.kindOf c != some Kind.child then none else
+    match find tn with
+    | none => none
+    | some t' =>
+      let acc := t.exportValuesAt (t.importT dflt PTree.empty) path acc      -- the parent's own value members
+      if t.importChild.contains c && t.exportChild.contains c then exportAlong find dflt t' rest f v (path ++ [c]) acc
+      else some acc      -- the child never reaches its constructor, or is never exported
+
 /-- the simplest admissible child exporter: re-install the imported subtree (what `params_export_child`'s
 `ptree` overload does for the run-time wrappers); an empty child exports nothing -/
 def rawChildExp (n : String) (sub acc : PTree) : PTree :=
